@@ -253,28 +253,36 @@ static int do_run(const char* cases, const char* impl) {
     std::string line(buf.data()); n++;
     Case c;
     if (!parse(line, c)) { fprintf(fo, "bad-case\n"); continue; }
-    int pfd[2]; if (pipe(pfd)) return 2;
-    fflush(fo);
-    pid_t pid = fork();
-    if (pid == 0) {
+    // A timeout is retried twice: monotone fits go through nnls_normal_block3 -> walk_descents (pthread pool), whose
+    // lost wake-up (property C12) can hang a run nondeterministically; only a persistent timeout is this case's result.
+    for (int attempt = 0; attempt < 3; attempt++) {
+      int pfd[2]; if (pipe(pfd)) return 2;
+      fflush(fo);
+      pid_t pid = fork();
+      if (pid == 0) {
+        close(pfd[0]);
+        int e = open(errpath.c_str(), O_WRONLY | O_CREAT | O_TRUNC, 0600); dup2(e, 2);
+        int dn = open("/dev/null", O_WRONLY); dup2(dn, 1);
+        alarm((unsigned)timeout);
+        run_case(c, pfd[1]);
+        _exit(0);
+      }
+      close(pfd[1]);
+      std::string res; char b[4096]; ssize_t k;
+      while ((k = read(pfd[0], b, sizeof b)) > 0) res.append(b, k);
       close(pfd[0]);
-      int e = open(errpath.c_str(), O_WRONLY | O_CREAT | O_TRUNC, 0600); dup2(e, 2);
-      int dn = open("/dev/null", O_WRONLY); dup2(dn, 1);
-      alarm((unsigned)timeout);
-      run_case(c, pfd[1]);
-      _exit(0);
-    }
-    close(pfd[1]);
-    std::string res; char b[4096]; ssize_t k;
-    while ((k = read(pfd[0], b, sizeof b)) > 0) res.append(b, k);
-    close(pfd[0]);
-    int st = 0; waitpid(pid, &st, 0);
-    if (WIFEXITED(st) && WEXITSTATUS(st) == 0 && !res.empty()) fputs(res.c_str(), fo);
-    else if (WIFSIGNALED(st) && WTERMSIG(st) == SIGALRM) fprintf(fo, "timeout after %lds\n", timeout);
-    else {
-      std::string rep = first_report_line(errpath);
-      if (WIFSIGNALED(st)) fprintf(fo, "crash signal=%d %s\n", WTERMSIG(st), rep.c_str());
-      else fprintf(fo, "crash exit=%d %s\n", WEXITSTATUS(st), rep.c_str());
+      int st = 0; waitpid(pid, &st, 0);
+      if (WIFEXITED(st) && WEXITSTATUS(st) == 0 && !res.empty()) {
+        if (attempt) { res.pop_back(); res += " retried=" + std::to_string(attempt) + "\n"; }
+        fputs(res.c_str(), fo); break;
+      } else if (WIFSIGNALED(st) && WTERMSIG(st) == SIGALRM) {
+        if (attempt == 2) fprintf(fo, "timeout after %lds (3 attempts)\n", timeout);
+      } else {
+        std::string rep = first_report_line(errpath);
+        if (WIFSIGNALED(st)) fprintf(fo, "crash signal=%d %s\n", WTERMSIG(st), rep.c_str());
+        else fprintf(fo, "crash exit=%d %s\n", WEXITSTATUS(st), rep.c_str());
+        break;
+      }
     }
   }
   fclose(fc); fclose(fo); unlink(errpath.c_str());
